@@ -50,6 +50,7 @@ type vcsObs struct {
 	Conflicts  int
 	WriterSeen int
 	PreEvents  []event
+	CtxDoneSeq int // log position at which the context became done (0: never)
 }
 
 func segment(v *vcs, log []event) *vcsObs {
@@ -66,6 +67,10 @@ func segment(v *vcs, log []event) *vcsObs {
 		if e.Ev == "writer" {
 			o.WriterSeen++
 			continue // the writer's own action belongs to no attempt
+		}
+		if e.Ev == "ctx-done" {
+			o.CtxDoneSeq = e.Seq
+			continue // the environment's action, not the repository's
 		}
 		if e.Ev == "destroy" {
 			o.Destroys[e.WS]++
